@@ -134,6 +134,29 @@ theorem inv_withBackend {c : Cfg} (h : RValid c) {ws : List Nat} (hw : WordsOK c
   have hi := inv_empty h
   exact ⟨hw, hi.2.1, hi.2.2.1, hi.2.2.2.1, hi.2.2.2.2⟩
 
+/-- the `usize` counters have room for `k` more symbols: with `m = bulk.len() + num_inverted`,
+    `Word::BITS · (m + k + 2) < 2^usize::BITS` (`+ 2`: the seal words; the factor: `num_bits`) -/
+def Fits (c : Cfg) (e : Encoder) (k : Nat) : Prop :=
+  c.W * (e.bulk.length + e.situation.held + k + 2) < 2^usizeBits
+
+instance (c : Cfg) (e : Encoder) (k : Nat) : Decidable (Fits c e k) := by
+  unfold Fits; exact inferInstance
+
+theorem Fits.held_lt {c : Cfg} (hc : RValid c) {e : Encoder} {k : Nat} (h : Fits c e k) :
+    e.bulk.length + e.situation.held + k + 2 < 2^usizeBits := by
+  have hW := hc.W_pos
+  have : 1 * (e.bulk.length + e.situation.held + k + 2)
+      ≤ c.W * (e.bulk.length + e.situation.held + k + 2) := Nat.mul_le_mul_right _ hW
+  unfold Fits at h
+  omega
+
+theorem Fits.mono {c : Cfg} {e : Encoder} {k j : Nat} (h : Fits c e k) (hj : j ≤ k) :
+    Fits c e j := by
+  unfold Fits at h ⊢
+  have : c.W * (e.bulk.length + e.situation.held + j + 2)
+      ≤ c.W * (e.bulk.length + e.situation.held + k + 2) := Nat.mul_le_mul_left _ (by omega)
+  omega
+
 /-! ### pure description of `encode_symbol` -/
 
 /-- the held-back words once the carry is known -/
@@ -168,6 +191,17 @@ def encPure (c : Cfg) (e : Encoder) (cum p : Nat) : Encoder :=
   let r1 := scale * p
   let nl := (e.lower + scale * cum) % 2^c.S
   renormP c (resolveP c e nl r1).1 (resolveP c e nl r1).2 nl r1
+
+/-- the first half of `encode_symbol` never increases `num_inverted` -/
+theorem resolveP_held_le (c : Cfg) (e : Encoder) (nl r1 : Nat) :
+    (resolveP c e nl r1).2.held ≤ e.situation.held := by
+  unfold resolveP
+  cases e.situation with
+  | normal => exact Nat.le_refl _
+  | inverted n first =>
+    by_cases h : (nl + r1) % 2^c.S > nl
+    · simp only [h, if_true, Situation.held]; exact Nat.zero_le _
+    · simp only [h, if_false]; exact Nat.le_refl _
 
 /-- basic facts about `scale = range >> P` under the invariant -/
 theorem scale_facts {c : Cfg} (hc : RValid c) {range cum p : Nat}
@@ -207,7 +241,7 @@ theorem resolve_eq {c : Cfg} {e : Encoder} {nl r1 : Nat}
 
 /-- `renorm` returns `renormP` whenever `0 < range`, `range * 2^W ≥ 1` is representable etc. -/
 theorem renorm_eq {c : Cfg} (hc : RValid c) {bulk : List Nat} {sit : Situation} {lower range : Nat}
-    (hl : lower < 2^c.S) (hr0 : 0 < range) :
+    (hl : lower < 2^c.S) (hr0 : 0 < range) (hn : sit.held + 1 < 2^usizeBits) :
     renorm c bulk sit lower range = .ok (renormP c bulk sit lower range) := by
   have hWS := hc.W_lt_S
   have hW := hc.W_pos
@@ -235,7 +269,11 @@ theorem renorm_eq {c : Cfg} (hc : RValid c) {bulk : List Nat} {sit : Situation} 
     rw [hr2', hlow, hword]
     simp only [hne, if_false]
     cases sit with
-    | inverted n first => rfl
+    | inverted n first =>
+      simp only [Situation.held] at hn
+      simp only [wadd_eq, Nat.mod_eq_of_lt hn]
+      have : n + 1 ≠ 0 := by omega
+      simp only [this, if_false]
     | normal =>
       simp only [wadd_eq]
       have hl2 : (lower % 2^(c.S - c.W)) * 2^c.W < 2^c.S := by
@@ -258,7 +296,8 @@ theorem renorm_eq {c : Cfg} (hc : RValid c) {bulk : List Nat} {sit : Situation} 
 
 /-- Under the invariant, for every legal `(cum, p)`, the transcribed `encode_symbol` does not
     fault and computes `encPure`. -/
-theorem encodeCP_eq_pure {c : Cfg} (hc : RValid c) {e : Encoder} (hI : Inv c e) {cum p : Nat}
+theorem encodeCP_eq_pure {c : Cfg} (hc : RValid c) {e : Encoder} (hI : Inv c e)
+    (hf : Fits c e 1) {cum p : Nat}
     (hp : 0 < p) (hcp : cum + p ≤ 2^c.P) :
     encodeCP c e cum p = .ok (encPure c e cum p) := by
   obtain ⟨_, hl, hr, hr2, hs⟩ := hI
@@ -280,6 +319,9 @@ theorem encodeCP_eq_pure {c : Cfg} (hc : RValid c) {e : Encoder} (hI : Inv c e) 
     exact hs.2.1)]
   simp only []
   rw [renorm_eq hc (Nat.mod_lt _ (two_pow_pos' _)) hsc3]
+  have hfl := hf.held_lt hc
+  have := resolveP_held_le c e ((e.lower + e.range / 2^c.P * cum) % 2^c.S) (e.range / 2^c.P * p)
+  omega
 
 end CV.Range
 
